@@ -1074,6 +1074,10 @@ Ex(st, s, E) ==
 Data == Case.datas[did]          \* record: name -> value (render arguments)
 \* globals given to get_template() for the main template only ("template-level globals")
 TGlobals == IF "tglobals" \in DOMAIN Case THEN Case.tglobals ELSE EmptyMap
+\* the second render of a case may fetch the main template again with other template-level globals
+\* (get_template(name, globals=...) on a cached template updates its globals)
+HasTG2 == "tglobals2" \in DOMAIN Case
+TGlobals2 == IF HasTG2 THEN Case.tglobals2 ELSE TGlobals
 
 InitS ==
     LET top == EmptyMap IN
@@ -1127,7 +1131,9 @@ Finish ==
     /\ phase' = IF npass = 1 /\ Fld(Cfg, "rerender", FALSE) THEN "again" ELSE "done"
     /\ result' = Observable
     /\ first' = IF npass = 1 THEN [err |-> Observable.err, out |-> Observable.out] ELSE first
-    /\ IF npass = 1 THEN PrintT(ToJson(Observable)) ELSE TRUE
+    /\ IF npass = 1 THEN PrintT(ToJson(Observable))
+       ELSE IF HasTG2 THEN PrintT(ToJson([Observable EXCEPT !.d = did + 1000]))     \* the second render is observed too
+       ELSE TRUE
     /\ UNCHANGED <<cid, did, S, todo, rootcx, npass>>
 
 \* C29: render the same template on the same data again in the same engine: everything
@@ -1137,8 +1143,8 @@ Again ==
     /\ phase' = "render"
     /\ npass' = 2
     /\ LET s0 == NewFrame([S EXCEPT !.out = <<>>, !.log = <<>>, !.err = "", !.flow = ""], PreMap(Tpls[Case.main], "pre"))
-           s1 == NewCtx(s0, [vars |-> LastFrame(s0), parent |-> Data @@ TGlobals @@ Globals, exported |-> {}, blocks |-> EmptyMap,
-                             par |-> "", tpl |-> Case.main, chain |-> <<>>, xg |-> TGlobals,
+           s1 == NewCtx(s0, [vars |-> LastFrame(s0), parent |-> Data @@ TGlobals2 @@ Globals, exported |-> {}, blocks |-> EmptyMap,
+                             par |-> "", tpl |-> Case.main, chain |-> <<>>, xg |-> TGlobals2,
                              da |-> Tpls[Case.main].auto, ev |-> Len(s0.cx) + 1])
        IN /\ S' = RegisterBlocks(s1, LastCtx(s1), Case.main)
           /\ rootcx' = LastCtx(s1)
@@ -1182,7 +1188,7 @@ C32_LookupsSyntactic ==
               (S.log[j][3] \in SeqToSet(Tpls[S.log[j][2]].refs) \/ "?" \in SeqToSet(Tpls[S.log[j][2]].refs))
 
 \* C29: a second render in the same engine gives the same result as the first
-C29_Repeatable == (phase = "done" /\ npass = 2) => [err |-> result.err, out |-> result.out] = first
+C29_Repeatable == (phase = "done" /\ npass = 2 /\ ~HasTG2) => [err |-> result.err, out |-> result.out] = first
 
 \* C04: in every context the stack of definitions of a block lists, most derived first, exactly
 \* the templates of the inheritance chain (in chain order) that define the block
